@@ -37,6 +37,45 @@ def extract_fn(src, name):
     return None
 
 
+def windows_os_module(src):
+    """text of `#[cfg(windows)] mod os { ... }` (the whole file if it cannot be located)"""
+    m = re.search(r"#\[cfg\(windows\)\]\s*mod os\s*\{", src)
+    if not m:
+        return src
+    depth, j = 0, m.end() - 1
+    while j < len(src):
+        if src[j] == "{":
+            depth += 1
+        elif src[j] == "}":
+            depth -= 1
+            if depth == 0:
+                return src[m.start():j + 1]
+        j += 1
+    return src
+
+
+def extract_closure(src, roots):
+    """the root functions plus every free function of the windows `mod os` they refer to, transitively
+    (so that a refactoring into helper functions does not break the extraction)"""
+    mod = windows_os_module(src)
+    names = set(re.findall(r"^[ \t]*(?:pub(?:\([a-z]+\))? )?fn (\w+)\s*[(<]", mod, re.M))
+    got, todo = {}, list(roots)
+    while todo:
+        n = todo.pop()
+        if n in got:
+            continue
+        t = extract_fn(mod, n)
+        if t is None:
+            if n in roots:
+                return [None]
+            continue
+        got[n] = t
+        for w in set(re.findall(r"\b(\w+)\s*\(", t)):
+            if w in names and w not in got and w not in ("os_start", "os_wait", "os_wait_timeout", "os_terminate", "os_kill"):
+                todo.append(w)
+    return [got[n] for n in roots] + [got[n] for n in sorted(got) if n not in roots]
+
+
 def hexu(a):
     return "-" if not a else "".join("%04x" % u for u in a)
 
@@ -83,7 +122,7 @@ def check(ctx):
                         "helper threads / CreateProcess itself are outside the model"]
     # ---- extraction
     src = open(os.path.join(common.REPO, "src", "popen.rs")).read()
-    fns = [extract_fn(src, "assemble_cmdline"), extract_fn(src, "append_quoted")]
+    fns = extract_closure(src, ["assemble_cmdline", "append_quoted"])
     wdir = os.path.join(common.BUILD, "winx")
     os.makedirs(wdir, exist_ok=True)
     if None in fns:
